@@ -506,7 +506,7 @@ def run(ctx):
                    ci.node.lineno)
     # lazy containers: the parsed element is stored back, equality goes
     # through __getitem__ (so that parsed and unparsed states compare equal)
-    from ..cfg import CFG
+    from .. import lazy
     n_lazy = 0
     for cls in sorted(containers):
         ci = idx.get(cls)
@@ -517,44 +517,10 @@ def run(ctx):
         if not des:
             continue
         n_lazy += 1
-        key = param_names(f)[1]
-        g = CFG(f, lambda st: isinstance(st, ast.Raise))
-        des_nodes = [n.id for n in g.nodes if n.ast is not None and n.kind == "stmt"
-                     and any(isinstance(c, ast.Call) and isinstance(c.func, ast.Attribute)
-                             and c.func.attr == "deserialize" for c in ast.walk(n.ast))]
-        stores = {
-            n.id for n in g.nodes
-            if n.ast is not None and isinstance(n.ast, ast.Assign)
-            and any(isinstance(t, ast.Subscript) and (dotted(t.value) or "").startswith("self._")
-                    and isinstance(t.slice, ast.Name) and t.slice.id == key for t in n.ast.targets)
-        }
-        w = None
-        for dn in des_nodes:
-            if dn in stores:
-                continue
-            for b in g.succ[dn]:
-                if g.ekind[(dn, b)] == "exc" or b in stores:
-                    continue
-                w = w or g.path(b, g.exit.id, blocked=stores)
-        ctx.ob("R2.lazy-parse-stored", ci.rel, f"{cls}.__getitem__", "parsed element stored under its key",
-               w is None and bool(des_nodes),
-               f"{cls}.__getitem__ parses the element lazily but returns it on a path that does not "
-               "store it back: edits made through the returned object are lost and the element is "
-               "parsed again", f.lineno)
+        lazy.check_getitem_stores(ctx, "R2.lazy-parse-stored", ci.rel, cls, f)
         owner, eq = idx.resolve(cls, "__eq__")
         if eq is not None and owner.name == cls:
-            raw = [n for n in walk_local(eq) if isinstance(n, ast.Compare)
-                   and any(isinstance(x, ast.Attribute) and x.attr.startswith("_")
-                           and isinstance(x.value, ast.Name) and x.value.id in ("self", param_names(eq)[1])
-                           and x.attr not in ("_name",)
-                           for x in ast.walk(n))]
-            via = [n for n in walk_local(eq) if isinstance(n, ast.Compare)
-                   and isinstance(n.left, ast.Subscript) and isinstance(n.left.value, ast.Name)
-                   and n.left.value.id == "self"]
-            ctx.ob("R2.eq-through-getitem", ci.rel, f"{cls}.__eq__", "elements compared via self[key]",
-                   bool(via) and not raw,
-                   f"{cls}.__eq__ compares the raw backing store: a container whose elements are still "
-                   "serialised compares unequal to the same container after a lookup", eq.lineno)
+            lazy.check_eq_through_getitem(ctx, "R2.eq-through-getitem", ci.rel, cls, eq)
     ctx.floor("lazy-containers", n_lazy, 3)
 
     # lstrip used to undo a prefix
